@@ -1,26 +1,31 @@
 (* Property C19 (PARTIAL) - allocation failure yields a clean error, never a crash.
    Only statements closed by `exact`; the proofs live in Res/ResProofs.v.
    What is proved: over the translator-generated table of ALL allocation sites of the library
-   (Gen/AllocSites.v, regenerated from the C sources on every run) every site outside `known_open`
-   tests the result for NULL before its first use, and such a site never dereferences NULL and takes
+   (Gen/AllocSites.v, regenerated from the C sources on every run; calls of library functions that return
+   freshly allocated memory - psStrdupN, psDynBufDetach, tls13NewPsk ... found mechanically - are sites too) every
+   site outside `known_open` tests the result for NULL before its first use or escape into a structure field, and such a site never dereferences NULL and takes
    its error edge when the allocator fails.  Not proved (explored by harness/h_fault.c): that the error
    edge unwinds correctly (no leak / double free) and reaches the API boundary as an error. *)
 From Coq Require Import String List Bool.
 From MV Require Import Gen.AllocSites Res.ResModel Res.ResSpec Res.ResProofs.
 
-(* generic lemma: a guarded site never faults; when the allocator returns NULL the error edge is taken *)
+(* generic lemma: a guarded site never dereferences NULL and never stores it silently; when the allocator returns NULL
+   the error edge is taken *)
 Theorem c19_guarded_no_fault : forall s, guarded s = true ->
   forall orc : oracle,
     (forall k, run_site s orc <> Fault k) /\
+    run_site s orc <> SilentNull /\
     (orc = None -> run_site s orc = ErrorEdge) /\
     (orc <> None -> run_site s orc = Completed).
 Proof. exact guarded_no_fault. Qed.
 Print Assumptions c19_guarded_no_fault.
 
-(* ... and the guard is necessary in the model: an unguarded site faults on NULL *)
-Theorem c19_unguarded_faults : forall s, guarded s = false -> exists k, run_site s None = Fault k.
-Proof. exact unguarded_faults. Qed.
-Print Assumptions c19_unguarded_faults.
+(* ... and the guard is necessary in the model: an unguarded site either dereferences NULL, or (StoredUnchecked) leaves
+   NULL in a field whose readers take it for "not requested" - no crash, the check is silently off *)
+Theorem c19_unguarded_not_clean : forall s, guarded s = false ->
+  (exists k, run_site s None = Fault k) \/ run_site s None = SilentNull.
+Proof. exact unguarded_not_clean. Qed.
+Print Assumptions c19_unguarded_not_clean.
 
 (* hygiene of the table: keys are unique (so `known_open` names exactly one site), the table is not empty,
    and every key listed as open names an existing site that is indeed unguarded (no stale exemptions) *)
@@ -42,7 +47,7 @@ Print Assumptions c19_no_site_faults.
 
 (* the exempted sites are real violations of the site spec (no guarded site hides in the exemption list):
    the full statement c19_table_statement fails exactly on them *)
-Theorem c19_known_open_sites_fault : forall s, In s sites -> known_open s = true ->
-  exists k, run_site s None = Fault k.
-Proof. exact known_open_sites_fault. Qed.
-Print Assumptions c19_known_open_sites_fault.
+Theorem c19_known_open_sites_unclean : forall s, In s sites -> known_open s = true ->
+  (exists k, run_site s None = Fault k) \/ run_site s None = SilentNull.
+Proof. exact known_open_sites_unclean. Qed.
+Print Assumptions c19_known_open_sites_unclean.
